@@ -236,13 +236,21 @@ async def _session(case, out, top, cwd):
         quiet()          # the merge handler builds an argparse parser whose log-level action re-enables INFO logging
         return r.code, r.body
 
+    class ServedFileUnreadable(Exception):
+        pass
+
     def lib_nb(name):
-        return nbformat.read(os.path.join(cwd, name), as_version=4)
+        try:
+            return nbformat.read(os.path.join(cwd, name), as_version=4)
+        except Exception as e:
+            # the oracle itself cannot read a served notebook any more: an earlier request of this program damaged it
+            raise ServedFileUnreadable("%s: %s" % (name, e))
 
     first_answers = {}
     n_valid = n_bad = n_store = 0
     had_error = False
     try:
+      try:
         for ri, rq in enumerate(case["requests"]):
             kind = rq[0]
             before = tree_hash(top)
@@ -425,6 +433,10 @@ async def _session(case, out, top, cwd):
             if malformed:
                 n_bad += 1
                 had_error = True
+      except ServedFileUnreadable as e:
+        if not out.failures:
+            raise RuntimeError("a served notebook became unreadable although no request was found at fault: %s" % e)
+        out.count("programs_cut_short_(a_served_file_was_damaged_by_a_reported_request)")
     finally:
         srv.ioloop = real_ioloop
         server.stop()
